@@ -98,6 +98,9 @@ theorem stamp_changes {cl : Client} (h : ClientInv cl) {st : Store} (hst : cl.st
       | action ms pubs =>
         simp only [step] at hres
         split at hres <;> simp at hres
+      | newGraph pubs =>
+        simp only [step] at hres
+        split at hres <;> simp at hres
     · rintro ⟨ms, pubs, rfl⟩ hres
       simp only [step, hst] at hres hs'
       rcases action_spec cl.sink ms pubs (h.store st hst) with ⟨e, evs, hc', _⟩ | ⟨st'', _, _, _, _, hc', _, _, _, _, _, _, _, hstamp, _, _⟩
